@@ -36,6 +36,15 @@ type Gen struct {
 	// JSON body per operation: limits on the decoder side would cut it).
 	HugeNext bool
 	HugeBody bool // set by the caller: arm HugeNext when the JSON body is filled
+	// Zeroish: every scalar is its Go zero value ("" / 0 / false / the zero
+	// time), containers are empty, optionals are unset or set to a zero value:
+	// the values code tends to confuse with "nothing there".
+	Zeroish bool
+	// FieldKeys: additional-property maps also get keys spelled like the Go
+	// field names of the struct that holds them ("Length" next to the declared
+	// property "length"): legal keys that differ from every declared name.
+	FieldKeys bool
+	fieldKeys []string // armed by fillStruct for the next map
 }
 
 const HugeLen = 1<<20 + 1<<19
@@ -174,7 +183,7 @@ func (g *Gen) Value(t reflect.Type, s oas.M, depth int) reflect.Value {
 func (g *Gen) fill(v reflect.Value, s oas.M, depth int) {
 	t := v.Type()
 	if isWrapper(t) {
-		if g.Rng.Intn(3) == 0 {
+		if g.Rng.Intn(3) == 0 || (g.Zeroish && g.Rng.Intn(2) == 0) {
 			return // unset: zero Value
 		}
 		v.Field(0).SetBool(true)
@@ -196,6 +205,9 @@ func (g *Gen) fill(v reflect.Value, s oas.M, depth int) {
 	}
 	switch t {
 	case timeType:
+		if g.Zeroish {
+			return // time.Time{}: 0001-01-01T00:00:00Z
+		}
 		v.Set(reflect.ValueOf(g.timev()))
 		return
 	case rawType:
@@ -216,11 +228,23 @@ func (g *Gen) fill(v reflect.Value, s oas.M, depth int) {
 		if f, _ := s["format"].(string); f == "date" && g.Tag == "" {
 			// goag maps `format: date` to a plain string: the caller supplies a full-date
 			v.SetString(fmt.Sprintf("%04d-%02d-%02d", 1+g.Rng.Intn(9999), 1+g.Rng.Intn(12), 1+g.Rng.Intn(28)))
-		} else {
+		} else if !g.Zeroish {
 			v.SetString(g.str())
 		}
 	case reflect.Bool:
-		v.SetBool(g.Rng.Intn(2) == 0)
+		v.SetBool(!g.Zeroish && g.Rng.Intn(2) == 0)
+	case reflect.Int, reflect.Int64, reflect.Int32, reflect.Float64, reflect.Float32:
+		if g.Zeroish {
+			return
+		}
+		g.fillNumber(v)
+	default:
+		g.fillContainer(v, s, depth)
+	}
+}
+
+func (g *Gen) fillNumber(v reflect.Value) {
+	switch v.Kind() {
 	case reflect.Int, reflect.Int64:
 		if g.HasTagInt {
 			v.SetInt(g.TagInt)
@@ -237,13 +261,23 @@ func (g *Gen) fill(v reflect.Value, s oas.M, depth int) {
 		v.SetFloat(g.float(64))
 	case reflect.Float32:
 		v.SetFloat(g.float(32))
+	}
+}
+
+func (g *Gen) fillContainer(v reflect.Value, s oas.M, depth int) {
+	t := v.Type()
+	switch t.Kind() {
 	case reflect.Slice:
 		var items oas.M
 		if s != nil {
 			items = g.Doc.Schema(s["items"])
 		}
 		n := 0
-		switch g.Rng.Intn(5) {
+		k := g.Rng.Intn(5)
+		if g.Zeroish {
+			k = 1 // empty, not nil
+		}
+		switch k {
 		case 0:
 			return // nil
 		case 1:
@@ -261,7 +295,22 @@ func (g *Gen) fill(v reflect.Value, s oas.M, depth int) {
 		v.Set(sl)
 	case reflect.Map:
 		n := g.Rng.Intn(3)
+		if g.Zeroish {
+			n = 0
+		}
 		m := reflect.MakeMap(t)
+		for _, fk := range g.fieldKeys {
+			// keys spelled like the holder's Go field names (see FieldKeys)
+			if g.Rng.Intn(2) == 0 {
+				k := reflect.New(t.Key()).Elem()
+				k.SetString(fk)
+				e := reflect.New(t.Elem()).Elem()
+				g.fill(e, s, depth+1)
+				m.SetMapIndex(k, e)
+				n++
+			}
+		}
+		g.fieldKeys = nil
 		for i := 0; i < n; i++ {
 			k := reflect.New(t.Key()).Elem()
 			k.SetString(fmt.Sprintf("extra_%d_%s", i, g.mapKeyTail()))
@@ -351,7 +400,16 @@ func (g *Gen) fillStruct(v reflect.Value, s oas.M, depth int) {
 			if ov.HasAddl {
 				as = g.Doc.Schema(ov.Addl)
 			}
+			if g.FieldKeys && !g.Zeroish {
+				for j := 0; j < t.NumField(); j++ {
+					name := t.Field(j).Name
+					if _, declared := ov.Props[name]; !declared && name != "AdditionalProperties" && !t.Field(j).Anonymous {
+						g.fieldKeys = append(g.fieldKeys, name)
+					}
+				}
+			}
 			g.fill(f, as, depth+1)
+			g.fieldKeys = nil
 		default:
 			var ps oas.M
 			found := false
